@@ -364,6 +364,227 @@ def build():
     return C
 
 
+def setup_set():
+    """entering / leaving credit play: whatever mode the machine booted in and however often enable / disable / toggle
+    requests repeat, in credit play every coin switch, the service switch and every credit event has EXACTLY ONE
+    credit handler (a coin is counted once) and the price has been calculated (credit_unit > 0, a game costs >= 1
+    unit); in free play no credit handler is left"""
+    C = ContractSet("C20s", "credit play set-up: one handler per coin, price calculated")
+    C.strings = False
+    NSW = common.bound(1, 2)
+    C.cls("Mode", fields={})
+    C.cls("Template", fields=dict(value=Num))
+    C.ext("Template.evaluate", model=lambda I, env, a, k: I.read_field(env["self"].ref, "value"),
+          trusted_reason="a validated template evaluates to a number; constant during a call (A-CONFIG)")
+    C.ext("Template.__eq__", model=lambda I, env, a, k: VBool(I.eq(I.read_field(env["self"].ref, "value"),
+                                                                  I.read_field(I.force(a[0]).ref, "value"))),
+          trusted_reason="NativeTypeTemplate equality compares the values")
+
+    def native_template(I, a, k):
+        o = Obj("Template", ObjS("Template", value=Num), I.fresh_name("native_template"))
+        o.fresh = True
+        I.heap.data[(o, "value")] = a[0]
+        return VObj(o)
+    C.globals["NativeTypeTemplate"] = VFn("model", model=native_template)
+
+    def reg(I):
+        return I.__dict__.setdefault("c20_reg", {"sw": [], "ev": {}})
+
+    def add_switch_handler(I, env, a, k):
+        key = VOpaque("SwitchKey", z3.Const(I.fresh_name("swkey"), usort("SwitchKey")))
+        cb = I.force(k["callback"])
+        reg(I)["sw"].append(dict(key=key, switch=I.force(k["switch"]).ref, cb=cb.name if cb.tag == "fn" else "?",
+                                 live=True, kwargs=k.get("callback_kwargs")))
+        return key
+
+    def remove_switch_handlers(I, env, a, k):
+        keys = [I.force(x) for x in I.iter_conc(a[0])]
+        for h in reg(I)["sw"]:
+            if any(x.tag == "opaque" and x.t.eq(h["key"].t) for x in keys):
+                h["live"] = False
+        return NONE
+    C.cls("SwitchController", fields={})
+    C.ext("SwitchController.add_switch_handler_obj", model=add_switch_handler,
+          trusted_reason="switch controller (C03): registers one more handler and returns its key")
+    C.ext("SwitchController.remove_switch_handler_by_keys", model=remove_switch_handlers,
+          trusted_reason="switch controller (C03): removes exactly the handlers with these keys")
+
+    def ev_add(I, env, a, k):
+        h = I.force(k.get("handler", a[1] if len(a) > 1 else NONE))
+        ev = k.get("event", a[0] if a else NONE)
+        name = h.name if h.tag == "fn" else "?"
+        if name == "_credit_event_callback":
+            d = reg(I)["ev"]
+            kk = str(I.force(ev).t)
+            d[kk] = d.get(kk, 0) + 1
+        return VOpaque("HKey", z3.Const(I.fresh_name("hkey"), usort("HKey")))
+
+    def ev_remove(I, env, a, k):
+        h = I.force(a[0])
+        if h.tag == "fn" and h.name == "_credit_event_callback":
+            reg(I)["ev"] = {}
+        return NONE
+    C.cls("EventManager", fields={})
+    C.ext("EventManager.add_handler", model=ev_add, trusted_reason="event manager (C01): registers one more handler")
+    C.ext("EventManager.remove_handler", model=ev_remove, trusted_reason="event manager (C01): removes every handler "
+                                                                         "with this callback")
+    C.ext("EventManager.post", model=common.noop, trusted_reason="event posting (C01)")
+    C.cls("MachineVariables", fields={})
+    for m_ in ("set_machine_var", "configure_machine_var", "remove_machine_var"):
+        C.ext("MachineVariables." + m_, model=common.noop, trusted_reason="machine-variable store (main set / C15)")
+    C.cls("SettingsController", fields=dict(free_play=Bool))
+    C.ext("SettingsController.get_setting_value", model=lambda I, env, a, k: I.read_field(env["self"].ref, "free_play"),
+          trusted_reason="settings store: get returns last set")
+    C.ext("SettingsController.set_setting_value",
+          model=lambda I, env, a, k: (I.write_field(env["self"].ref, "free_play", a[1]), NONE)[1],
+          trusted_reason="settings store: get returns last set")
+    C.cls("SwitchDev", fields={})
+
+    def coin_switches(I, name):
+        ents = []
+        for i in range(1 + I.ctx.fork(NSW)):
+            r = I.fresh(Rec(switch=ObjS("SwitchDev"), value=ObjS("Template", value=Num), type=Str, label=Str),
+                        "%s[%d]" % (name, i))
+            I.ctx.assume(I.num(I.read_field(I.force(I.read_field(r.ref, "value")).ref, "value"))[1] > 0)
+            ents.append(r)
+        return I.new_list(ents, name)
+
+    def service_switches(I, name):
+        return I.new_list([I.fresh(ObjS("SwitchDev"), name + "[0]")] if I.ctx.fork(2) else [], name)
+
+    def credit_events(I, name):
+        if I.ctx.fork(2) == 0:
+            return I.new_list([], name)
+        return I.new_list([I.fresh(Rec(event=Const("award_credit"), credits=ObjS("Template", value=Num), type=Str),
+                                   name + "[0]")], name)
+
+    def tiers(I, name):
+        ents = []
+        for i in range(I.ctx.fork(2) + 0):
+            r = I.fresh(Rec(price=ObjS("Template", value=Num), credits=ObjS("Template", value=Num)), "%s[%d]" % (name, i))
+            I.ctx.assume(I.num(I.read_field(I.force(I.read_field(r.ref, "price")).ref, "value"))[1] > 0)
+            ents.append(r)
+        return I.new_list(ents, name)
+
+    def installed(I, name):
+        """entry state of _switch_handlers: credit play is off (no handler) or on (one live handler per switch)"""
+        this = I.frames[0].env["self"].ref
+        cfg = I.force(I.read_field(this, "credits_config")).ref
+        if I.ctx.fork(2) == 0:
+            I.__dict__["c20_was_on"] = False
+            return I.new_list([], name)
+        I.__dict__["c20_was_on"] = True
+        keys = []
+        for r in I.container(I.force(I.read_field(cfg, "switches")).ref).items:
+            key = VOpaque("SwitchKey", z3.Const(I.fresh_name("swkey0"), usort("SwitchKey")))
+            reg(I)["sw"].append(dict(key=key, switch=I.force(I.read_field(I.force(r).ref, "switch")).ref,
+                                     cb="_credit_switch_callback", live=True, kwargs=None))
+            keys.append(key)
+        for sw in I.container(I.force(I.read_field(cfg, "service_credits_switch")).ref).items:
+            key = VOpaque("SwitchKey", z3.Const(I.fresh_name("swkey0"), usort("SwitchKey")))
+            reg(I)["sw"].append(dict(key=key, switch=I.force(sw).ref, cb="_service_credit_callback", live=True,
+                                     kwargs=None))
+            keys.append(key)
+        for r in I.container(I.force(I.read_field(cfg, "events")).ref).items:
+            reg(I)["ev"][str(I.force(I.read_field(I.force(r).ref, "event")).t)] = 1
+        return I.new_list(keys, name)
+    C.ghost.update(dict(priced=Bool))
+    CFG = Rec(switches=Init(coin_switches), service_credits_switch=Init(service_switches), events=Init(credit_events),
+              pricing_tiers=Init(tiers), persist_credits_while_off_time=Opt(Real), price_tier_template=Str)
+    C.cls("Credits", file=CREDITS, bases=["Mode"], fields=dict(
+        machine=ObjS("MachineController", variables=ObjS("MachineVariables"), settings=ObjS("SettingsController"),
+                     events=ObjS("EventManager"), switch_controller=ObjS("SwitchController")),
+        credits_config=CFG, credit_units_per_game=Int, credit_unit=Num, _switch_handlers=Init(installed)))
+    for m_ in ("_update_credit_strings", "_control_coin_inhibit", "_set_free_play_string", "_remove_event_handlers"):
+        C.ext("Credits." + m_, model=common.noop, trusted_reason="display strings / coin inhibit / game-request handlers "
+                                                                 "(main set); not the coin handlers")
+    C.ext("Credits.add_mode_event_handler", model=lambda I, env, a, k: VOpaque("HKey", z3.Const(
+        I.fresh_name("mkey"), usort("HKey"))), trusted_reason="Mode.add_mode_event_handler (C07 L1)")
+    C.ext("Credits._get_credit_units", model=lambda I, env, a, k: VInt(z3.Int(I.fresh_name("units"))),
+          trusted_reason="reads the balance (main set)")
+
+    def pricing(I, env, a, k):
+        I.write_field(I.ghost, "priced", VBool(True))
+        return NONE
+    C.ext("Credits._calculate_pricing_tiers", model=pricing,
+          trusted_reason="builds the pricing table from credit_unit / credit_units_per_game (nested loops; the main "
+                         "set assumes the table it builds as a class invariant)")
+    C.fn("Credits._enable_credit_handlers", inline=True, no_inv=True)
+    C.fn("Credits._disable_credit_handlers", inline=True, no_inv=True)
+
+    def one_handler_each(I):
+        this = I.frames[0].env["self"].ref
+        cfg = I.force(I.read_field(this, "credits_config")).ref
+        r_ = reg(I)
+        live = [h for h in r_["sw"] if h["live"]]
+        want = [(I.force(I.read_field(I.force(x).ref, "switch")).ref, "_credit_switch_callback")
+                for x in I.container(I.force(I.read_field(cfg, "switches")).ref).items]
+        want += [(I.force(x).ref, "_service_credit_callback")
+                 for x in I.container(I.force(I.read_field(cfg, "service_credits_switch")).ref).items]
+        got = sorted((id(h["switch"]), h["cb"]) for h in live)
+        if got != sorted((id(a_), b_) for a_, b_ in want):
+            return VBool(False)
+        evs = [str(I.force(I.read_field(I.force(x).ref, "event")).t)
+               for x in I.container(I.force(I.read_field(cfg, "events")).ref).items]
+        if sorted(r_["ev"].items()) != sorted((e, 1) for e in evs):
+            return VBool(False)
+        # the mode remembers exactly the live keys (so that it can remove them again)
+        held = [I.force(x) for x in I.container(I.force(I.read_field(this, "_switch_handlers")).ref).items]
+        ok = len(held) == len(live) and all(any(x.t.eq(h["key"].t) for x in held) for h in live)
+        return VBool(ok)
+    C.helpers["one_credit_handler_each"] = one_handler_each
+
+    def no_handler(I):
+        this = I.frames[0].env["self"].ref
+        r_ = reg(I)
+        held = I.container(I.force(I.read_field(this, "_switch_handlers")).ref).items
+        return VBool(not [h for h in r_["sw"] if h["live"]] and not r_["ev"] and len(held) == 0)
+    C.helpers["no_credit_handler"] = no_handler
+    SANE = ("both or neither: the price and the pricing table are calculated together",
+            "ghost.priced == (self.credit_unit > 0) and self.credit_unit >= 0 and "
+            "implies(self.credit_unit > 0, self.credit_units_per_game >= 1)")
+    PRICED = "self.credit_unit > 0 and self.credit_units_per_game >= 1 and ghost.priced"
+    MODS = ["self._switch_handlers", "self.credit_unit", "self.credit_units_per_game", "ghost.priced",
+            "self.machine.settings.free_play"]
+    C.fn("Credits._calculate_credit_units",
+         ensures=[("CU1: with positive coin values and prices the credit unit is positive and a game costs at least one "
+                   "unit", "self.credit_unit > 0 and self.credit_units_per_game >= 1")],
+         modifies=["self.credit_unit", "self.credit_units_per_game"], raises={"AssertionError": True}, inline_calls=True)
+    C.fn("Credits.enable_credit_play", params=dict(post_event=Bool, kwargs=Opaque("Kwargs")), requires=[SANE],
+         ensures=[("EC1: in credit play every coin switch, the service switch and every credit event has exactly ONE "
+                   "credit handler - also when credit play was already on (a coin is counted once)",
+                   "one_credit_handler_each()"),
+                  ("EC2: credit play is never entered without a calculated price - also on a machine that booted in "
+                   "free play", PRICED),
+                  ("the setting says credit play", "not self.machine.settings.free_play")],
+         modifies=MODS, raises={"AssertionError": True}, inline_calls=True, skip_frame=True)
+    C.fn("Credits.enable_free_play", params=dict(post_event=Bool, kwargs=Opaque("Kwargs")), requires=[SANE],
+         ensures=[("EF1: in free play no credit handler is left", "no_credit_handler()"),
+                  ("the setting says free play", "self.machine.settings.free_play")],
+         modifies=MODS, raises={}, inline_calls=True, skip_frame=True)
+    C.fn("Credits.toggle_credit_play", params=dict(kwargs=Opaque("Kwargs")), requires=[SANE],
+         ensures=[("TG1: a toggle ends in the other mode, set up completely",
+                   "(no_credit_handler() and self.machine.settings.free_play) if not old(self.machine.settings.free_play) "
+                   "else (one_credit_handler_each() and not self.machine.settings.free_play and " + PRICED + ")")],
+         modifies=MODS, raises={"AssertionError": True}, inline_calls=True, skip_frame=True)
+    C.fn("Credits.mode_start", params=dict(kwargs=Opaque("Kwargs")),
+         requires=[SANE, ("the mode starts with no credit handler installed", "not was_on()")],
+         ensures=[("MS1: the mode comes up in the configured mode, set up completely",
+                   "(no_credit_handler()) if self.machine.settings.free_play else (one_credit_handler_each() and " +
+                   PRICED + ")")],
+         modifies=MODS, raises={"AssertionError": True}, inline_calls=True, skip_frame=True)
+    C.fn("Credits.mode_stop", params=dict(kwargs=Opaque("Kwargs")),
+         ensures=[("MS2: a stopped credits mode leaves no credit handler behind", "no_credit_handler()")],
+         modifies=MODS, raises={}, inline_calls=True, skip_frame=True)
+    def was_on(I):
+        I.force(I.read_field(I.frames[0].env["self"].ref, "_switch_handlers"))      # materialise the entry state
+        return VBool(bool(I.__dict__.get("c20_was_on")))
+    C.helpers["was_on"] = was_on
+    C.assume("A-CONFIG: coin values and tier prices are positive numbers; at most %d coin switches, one service switch, "
+             "one credit event, one pricing tier (bounded)" % NSW)
+    return C
+
+
 def build_extra():
     # 'a player is added only when the credits handler approved the request': the game side - a denied
     # player_add_request (the credits mode returns False when there are too few credits) adds no player, whatever the
@@ -373,4 +594,4 @@ def build_extra():
     c06.pid = "C20b"
     c06.replay_pid = "C06"
     c06.only_verify = ["Game._player_add_request_complete", "Game.request_player_add"]
-    return [c06]
+    return [c06, setup_set()]
